@@ -10,6 +10,7 @@ import (
 	"fmt"
 	"io"
 	"math/rand/v2"
+	"net"
 	"net/http"
 	"net/http/httptest"
 	"os"
@@ -160,6 +161,65 @@ func (ce *cliEnv) run(in c18Input) (bool, []byte, bool, int) {
 	return false, nil, err == nil, ce.nreq
 }
 
+// runReadErr runs `setec put --verbatim` with a TCP connection as standard input whose peer sends n bytes
+// and then resets the connection, so that the command's read of its input fails.
+func (ce *cliEnv) runReadErr(n int) (sent bool, got []byte, exitOK bool, nreq int, setupErr error) {
+	ce.mu.Lock()
+	ce.got, ce.nreq = nil, 0
+	ce.mu.Unlock()
+	ln, err := net.Listen("tcp", "127.0.0.1:0")
+	if err != nil {
+		return false, nil, false, 0, err
+	}
+	defer ln.Close()
+	accepted := make(chan net.Conn, 1)
+	go func() {
+		c, aerr := ln.Accept()
+		if aerr == nil {
+			accepted <- c
+		} else {
+			close(accepted)
+		}
+	}()
+	cc, err := net.Dial("tcp", ln.Addr().String())
+	if err != nil {
+		return false, nil, false, 0, err
+	}
+	srvConn, ok := <-accepted
+	if !ok {
+		cc.Close()
+		return false, nil, false, 0, fmt.Errorf("accept failed")
+	}
+	f, err := cc.(*net.TCPConn).File() // the command reads from this end
+	cc.Close()
+	if err != nil {
+		srvConn.Close()
+		return false, nil, false, 0, err
+	}
+	defer f.Close()
+	ctx, cancel := context.WithTimeout(context.Background(), 30*time.Second)
+	defer cancel()
+	cmd := exec.CommandContext(ctx, ce.bin, "-s", ce.srv.URL, "put", "--verbatim", "secret/name")
+	cmd.Stdin = f
+	cmd.Env = append(os.Environ(), "SETEC_SERVER=")
+	if err := cmd.Start(); err != nil {
+		srvConn.Close()
+		return false, nil, false, 0, err
+	}
+	payload := bytes.Repeat([]byte("partial-value-"), n/14+1)[:n]
+	srvConn.Write(payload)
+	time.Sleep(50 * time.Millisecond) // let the command read what has arrived
+	srvConn.(*net.TCPConn).SetLinger(0)
+	srvConn.Close() // RST: the next read fails with "connection reset by peer"
+	werr := cmd.Wait()
+	ce.mu.Lock()
+	defer ce.mu.Unlock()
+	if len(ce.got) >= 1 {
+		return true, ce.got[0], werr == nil, ce.nreq, nil
+	}
+	return false, nil, werr == nil, ce.nreq, nil
+}
+
 func c18Run(ce *cliEnv, work string, in c18Input) Record {
 	in.SQ = ""
 	if len(in.S) <= 64 {
@@ -205,6 +265,22 @@ func c18Run(ce *cliEnv, work string, in c18Input) Record {
 		return rec
 	case "roundtrip":
 		return roundTrip(work, in)
+	case "clireaderr":
+		// standard input FAILS after part of the value has arrived (a TCP stream that is reset): nothing must
+		// be sent - a prefix of the value is not the value
+		sent, got, exitOK, nreq, rerr := ce.runReadErr(in.Size)
+		rec := Record{Kind: in.Kind, Input: in, Key: fmt.Sprintf("clireaderr:%d", in.Size), Nontrivial: true, Tags: []string{"cli-stdin-read-error"},
+			Obs: map[string]any{"prefix": in.Size, "sent": sent, "exit_ok": exitOK, "requests": nreq, "received": len(got), "setup": fmt.Sprint(rerr)}}
+		switch {
+		case rerr != nil:
+			rec.Nontrivial = false // the failing stream could not be set up here: nothing exercised
+			rec.Direct = &DirectVerdict{OK: true, What: "skipped: " + rerr.Error()}
+		case sent || nreq != 0 || exitOK:
+			rec.Direct = &DirectVerdict{OK: false, What: fmt.Sprintf("`setec put` whose standard input failed after %d bytes: sent=%v (%d bytes) requests=%d exit ok=%v - a partial value was accepted", in.Size, sent, len(got), nreq, exitOK)}
+		default:
+			rec.Direct = &DirectVerdict{OK: true, What: "refused, nothing sent"}
+		}
+		return rec
 	case "clibig":
 		// a large value through the command (too large to ship to the kernel: compared here, byte for byte;
 		// the flag policy itself is the model's: --verbatim sends the input as it is, from a file or a pipe)
@@ -571,6 +647,10 @@ func runC18(o Opts) {
 			}
 			out.Emit(c18Run(ce, work, c18Input{Kind: "roundtrip", Class: class, Size: sz}))
 		}
+	}
+	// a failing standard input
+	for _, n := range []int{1, 4096, 40000} {
+		out.Emit(c18Run(ce, work, c18Input{Kind: "clireaderr", Size: n}))
 	}
 	// large values through the command itself, from a file and from a pipe
 	big := []int{1 << 16, 1<<20 - 1, 1 << 20, 1<<20 + 1, 3<<20 + 7}
